@@ -352,6 +352,22 @@ func (X *Exec) runRegion(fr *Frame, cfg *cfgInfo, region map[int]bool, start *ss
 	return
 }
 
+// loopVars: names that mean something relative to one loop: `rangeindex` is the hidden index of THIS range loop.
+func (X *Exec) loopVars(fr *Frame, li *loopInfo, st *State) map[string]*Val {
+	for _, ins := range li.Head.Instrs {
+		if s, ok := ins.(*ssa.Store); ok {
+			if a, ok := s.Addr.(*ssa.Alloc); ok && a.Comment == "rangeindex" {
+				if c := fr.Cells[a]; c != nil {
+					if t, ok := st.Cells[c]; ok {
+						return map[string]*Val{"rangeindex": {T: t, GT: c.Type}}
+					}
+				}
+			}
+		}
+	}
+	return nil
+}
+
 func (X *Exec) loopKey(fr *Frame, li *loopInfo) string {
 	return fmt.Sprintf("%s|%s#%d", fr.Path, X.E.P.Keys[fr.Fn], li.Head.Index)
 }
@@ -375,7 +391,7 @@ func (X *Exec) enterLoop(fr *Frame, li *loopInfo, st *State) *State {
 
 	// user invariants on entry
 	for i, inv := range ls.Invariants {
-		t := X.evalClause(fr, st, inv, nil)
+		t := X.evalClause(fr, st, inv, X.loopVars(fr, li, st))
 		X.oblige(st, "inv.entry", inv.Label, fmt.Sprintf("loop %d of %s invariant #%d holds on entry: %s", li.Ordinal, fnKey, i, inv.Src), li.Head.Instrs[0].Pos(), t)
 	}
 	X.loopEntry[key] = st
@@ -396,7 +412,7 @@ func (X *Exec) enterLoop(fr *Frame, li *loopInfo, st *State) *State {
 	h := st.Clone()
 	X.havocMod(fr, h, ms, fmt.Sprintf("L%d", li.Ordinal))
 	for _, inv := range ls.Invariants {
-		h.assume(ts, X.evalClause(fr, h, inv, nil))
+		h.assume(ts, X.evalClause(fr, h, inv, X.loopVars(fr, li, h)))
 	}
 	for _, c := range X.cands[key] {
 		if c.Alive {
@@ -421,7 +437,7 @@ func (X *Exec) loopStep(fr *Frame, li *loopInfo, st *State) {
 		}
 	}
 	for i, inv := range ls.Invariants {
-		t := X.evalClause(fr, st, inv, nil)
+		t := X.evalClause(fr, st, inv, X.loopVars(fr, li, st))
 		X.oblige(st, "inv.step", inv.Label, fmt.Sprintf("loop %d of %s invariant #%d is preserved: %s", li.Ordinal, fnKey, i, inv.Src), li.Head.Instrs[0].Pos(), t)
 	}
 }
